@@ -216,8 +216,9 @@ def gen(ctx):
     return cases
 
 
-def classify(s):
-    """Witness class of a rejected case (for known-finding matching): derived from the input alone."""
+def classify(s, fin=None):
+    """Witness class of a rejected case (for known-finding matching): derived from the input and, for the one known shape,
+    from the returned header (which must be exactly the strict reading of the line up to the last digit of the port)."""
     if s.startswith(MAGIC2):
         return {'version': 2, 'shape': 'other'}
     if s.startswith(b'PROXY'):
@@ -230,7 +231,8 @@ def classify(s):
                 n = 0
                 while n < len(d) and d[n:n + 1].isdigit():
                     n += 1
-                if n > 0 and (n < len(d) or len(tok) > 4):
+                if n > 0 and (n < len(d) or len(tok) > 4) and fin is not None and fin.get('k') == 'hdr' and fin.get('n') == cr + 2 \
+                        and fin.get('sp') == int(tok[2]) and fin.get('dp') == int(d[:n]) and fin.get('fwd'):
                     return {'version': 1, 'shape': 'bytes after the destination port'}
         return {'version': 1, 'shape': 'other'}
     return {'version': 0, 'shape': 'other'}
@@ -268,7 +270,7 @@ def run(ctx):
     for i in prej:
         b, tag = cases[i]
         o = outs[i]
-        cls = classify(b)
+        cls = classify(b, o['res'][o['pre'][-1] - 1])
         key = json.dumps(cls, sort_keys=True)
         shown[key] = shown.get(key, 0) + 1
         if shown[key] > 2 and cls['shape'] != 'other':
